@@ -128,7 +128,7 @@ def _normalised_auto_paths(ctx, R, out):
 def c16_b(ctx: Ctx):
     """Leaf/node check is order independent and precedes the copies."""
     R = "C16-b"
-    f = ctx.fn(IE + ":_check_directory_structure_validity")
+    f = ctx.desugared(ctx.fn(IE + ":_check_directory_structure_validity"))
     out = []
     loops = [n for n in f.node.body if isinstance(n, ast.For)]
     sets = {t.id for n in body_nodes(f) if isinstance(n, ast.Assign) and isinstance(n.value, ast.Call) and canon(n.value) in ("set()",) for t in n.targets if isinstance(t, ast.Name)}
@@ -192,7 +192,7 @@ def c16_b(ctx: Ctx):
                     if g.module.is_dep:
                         continue
                     for c in body_nodes(g):
-                        if isinstance(c, ast.Call) and f.qual in common.targets_of(ctx, g, c) and c.args:
+                        if isinstance(c, ast.Call) and f.qual.split("~")[0] in common.targets_of(ctx, g, c) and c.args:
                             a0 = common.inline_at(ctx, g, c.args[0], c)
                             if isinstance(a0, ast.GeneratorExp) or (isinstance(a0, ast.Call) and isinstance(a0.func, ast.Name) and a0.func.id in ("map", "filter", "iter", "zip")):
                                 gens.append((g, c))
@@ -211,7 +211,7 @@ def c16_b(ctx: Ctx):
     _normalised_auto_paths(ctx, R, out)
     ej = ctx.fn(IE + ":_export_jobs")
     cfg = ctx.cfg(ej)
-    chk = common.ids_of(ctx, ej, [s for s, _ in common.stmts_containing_call_to(ctx, ej, quals=(f.qual,))])
+    chk = common.ids_of(ctx, ej, [s for s, _ in common.stmts_containing_call_to(ctx, ej, quals=(f.qual.split("~")[0],))])
     copies = [n for n in cfg.stmt_nodes() for c in (walk_no_nested(n.ast) if n.kind == "stmt" else []) if isinstance(c, ast.Call) and isinstance(c.func, ast.Name) and c.func.id == "copytree"]
     for c in copies:
         w = cfg.must_pass_before(c.id, chk, kinds="n")
